@@ -40,6 +40,8 @@ class Formula:
         self.notes = []
         self.opaque = set()        # argument-less methods kept as opaque calls (`self.precision()`)
         self.opaque_elem = {}      # argument-less methods that return a sequence: name -> element atom
+        self.opaque_any = {}       # methods (any arguments) read as one element-wise atom each: name -> atom
+        self.skip_early_returns = False   # read the fall-through path only: `if .. { return .. }` statements are other paths
 
     # ---- atoms
     def is_elem_atom(self, a):
@@ -239,18 +241,7 @@ class Formula:
         e = strip(e)
         k = e.get("k")
         if k == "Block":
-            env = dict(env)
-            for s in e["stmts"]:
-                s0 = strip(s)
-                if s0.get("k") == "LetStmt" and s0.get("init") is not None:
-                    bs = list(pat_bindings(s0["pat"]))
-                    if len(bs) != 1:
-                        raise Unsupported("let pattern")
-                    env[bs[0]["local"]] = self.expr(c, s0["init"], env)
-                elif s0.get("k") in ("Match", "If", "Block") and self.is_assertion(c, s0):
-                    continue
-                else:
-                    raise Unsupported("statement %s" % s0.get("k"))
+            env = self.block_env(c, e, env)
             if e.get("e") is None:
                 raise Unsupported("block without value")
             return self.expr(c, e["e"], env)
@@ -310,6 +301,49 @@ class Formula:
         if k == "Index":
             raise Unsupported("indexing")
         raise Unsupported("expression %s" % k)
+
+    def block_env(self, c, e, env):
+        """the bindings in force after the statements of block e"""
+        from .facts import walk
+        env = dict(env)
+        for s in e["stmts"]:
+            s0 = strip(s)
+            if s0.get("k") == "LetStmt" and s0.get("init") is not None:
+                p_, i_ = s0["pat"], peel_refs(s0["init"])
+                if p_.get("k") == "Tuple" and i_.get("k") == "Tup" and len(p_["pats"]) == len(i_["es"]):
+                    for q, x in zip(p_["pats"], i_["es"]):
+                        bs = list(pat_bindings(q))
+                        if len(bs) != 1:
+                            raise Unsupported("let pattern")
+                        env[bs[0]["local"]] = self.expr(c, x, env)
+                    continue
+                bs = list(pat_bindings(p_))
+                if len(bs) != 1:
+                    raise Unsupported("let pattern")
+                env[bs[0]["local"]] = self.expr(c, s0["init"], env)
+            elif s0.get("k") in ("Match", "If", "Block") and self.is_assertion(c, s0):
+                continue
+            elif self.skip_early_returns and s0.get("k") == "If" and s0.get("else") is None and any(z.get("k") == "Ret" for z in walk(s0["then"])):
+                continue
+            else:
+                raise Unsupported("statement %s" % s0.get("k"))
+        return env
+
+    @staticmethod
+    def substitute(r, atom, repl, zero=()):
+        """r with `atom` replaced by the polynomial `repl` and the atoms in `zero` set to 0"""
+        def sub(p):
+            out = Poly()
+            for m, cf in p.d.items():
+                if any(a in zero for a, _ in m):
+                    continue
+                term = Poly({tuple((a, pw) for a, pw in m if a != atom): cf})
+                k_ = dict(m).get(atom, 0)
+                for _ in range(k_):
+                    term = term * repl
+                out = out + term
+            return out
+        return Rat(sub(r.num), sub(r.den))
 
     def is_err(self, c, b):
         """a block whose value is `Err(..)` / `return Err(..)` / a panic"""
@@ -381,6 +415,8 @@ class Formula:
     def method(self, c, e, env):
         nm = e["name"]
         args = e["args"]
+        if nm in self.opaque_any:
+            return V("elem", self.atom(self.opaque_any[nm], elem=True))
         if nm in self.opaque_elem and not args:
             return V("elem", self.atom(self.opaque_elem[nm], elem=True))
         if nm in self.opaque and not args:
